@@ -553,6 +553,27 @@ func namedRes(s: string, n: int) => (r: string, l: []int) {
 	return r + "x", l
 }
 
+// package-level variables with static addresses (the slot arrays are indexed dynamically)
+global gStr: string
+global gNode: *Node
+global gSI: []int
+global gAny: interface{}
+global gFn: func() => int
+global gHold: Holder
+global gArr: [3]string
+
+func clearGlobals() {
+	gStr = ""
+	gNode = nil
+	gSI = nil
+	gAny = nil
+	gFn = nil
+	gHold = Holder{}
+	gArr[0] = ""
+	gArr[1] = ""
+	gArr[2] = ""
+}
+
 func catAny(xs: ...interface{}) => string {
 	r := ""
 	for _, x := range xs {
@@ -1100,6 +1121,9 @@ func (g *gen) formOps4() {
 	g.add("labelled continue and break with references in scope", fmt.Sprintf("r := \"\"\nn := 0\nouter:\nfor i := 0; i < 4; i++ {\nrow := %s + itoa(i)\nfor j := 0; j < 4; j++ {\ncell := row + itoa(j)\nif (i+j+b)%%5 == 0 {\ncontinue outer\n}\nif (i*j+c)%%7 == 6 {\nbreak outer\n}\nif len(r) < 100 {\nr += cell[len(cell)-2:]\n}\nn++\n}\n}\n%s = r\nreturn hStr(r) + i64(n)", str("b"), str("a")))
 	g.add("comparisons of temporaries", fmt.Sprintf("x, y := %s, %s\nn := 0\nif x+\"a\" < y+\"b\" {\nn += 1\n}\nif x+y == y+x {\nn += 2\n}\nia: interface{} = x + \"q\"\nib: interface{} = y + \"q\"\nif ia == ib {\nn += 4\n}\nif ia != nil && itoa(b) >= itoa(c) {\nn += 8\n}\nreturn i64(n)", str("b"), str("c")))
 	g.add("append to a map element", fmt.Sprintf("m := make(map[string][]string)\nfor i := 0; i < 2+c%%3; i++ {\nk := itoa((b + i) %% 2)\nm[k] = append(m[k], %s+k)\n}\nr := \"\"\nfor _, v := range m[\"0\"] {\nr += v\n}\nr += itoa(len(m[\"1\"]))\n"+clip("r")+"%s = r\nreturn hStr(r)", str("b"), str("a")))
+	g.add("package-level variables parked and cleared with constants", fmt.Sprintf("gStr = %s + \"g\"\ngNode = &Node{val: b, name: itoa(c)}\ngSI = append([]int{}, c, b)\ngAny = %s\nk := c\ngFn = func() => int {\nreturn k + 1\n}\nr := hStr(gStr) + hN(gNode) + hSI(gSI) + i64(gFn())\nif s, ok := gAny.(string); ok {\nr += hStr(s)\n}\ngStr = \"\"\ngNode = nil\ngSI = nil\ngAny = nil\ngFn = nil\nreturn r", str("b"), str("c")))
+	g.add("package-level variables left parked, overwritten by the next visit", fmt.Sprintf("old := gStr\ngStr = %s + itoa(b)\nn := gNode\ngNode = &Node{val: c, rank: 0, name: old}\nif n != nil {\ngNode.val += n.val %% 7\n}\ngSI = append(gSI, b)\nif len(gSI) > 20 {\ngSI = gSI[:2]\n}\n"+clip("gStr")+"%s = old\nreturn hStr(old) + hN(gNode) + hSI(gSI)", str("b"), str("a")))
+	g.add("fields of a package-level struct and constant-index array elements", fmt.Sprintf("gHold.any = %s\ngHold.rows = append(gHold.rows, %s)\nif len(gHold.rows) > 6 {\ngHold.rows = nil\n}\ngHold.arr[1] = %s\ngArr[2] = gHold.arr[1] + \"z\"\ngArr[0] = gArr[2]\nr := hH(&gHold) + hStr(gArr[0])\nif c%%3 == 0 {\ngHold.any = nil\ngHold.arr[1] = \"\"\ngArr[2] = \"\"\ngArr[0] = \"\"\n}\nif c%%5 == 0 {\ngHold.rows = nil\n}\nreturn r", str("b"), si("c"), str("c")))
 	g.add("string to runes and back", fmt.Sprintf("rs := []rune(%s + \"世a\")\nfor i := range rs {\nif i%%2 == c%%2 {\nrs[i] = rune('b' + (b+i)%%20)\n}\n}\nu := string(rs[1:]) + string(rs[0]) + string(rune(0x4e16+b%%8))\n"+clip("u")+"%s = u\nreturn hStr(u) + i64(len(rs))", str("b"), str("a")))
 	g.add("local array of strings copied by value", fmt.Sprintf("arr: [3]string\narr[b%%3] = %s\narr[c%%3] = %s + \"k\"\nt := arr\nt[0] = t[1] + t[2]\nr := arr[0] + \"|\" + t[0]\n"+clip("r")+"%s = r\nreturn hStr(r)", str("b"), str("c"), str("a")))
 	g.add("slice of slices of strings, inner append", fmt.Sprintf("rows := [][]string{}\nfor i := 0; i < 1+c%%3; i++ {\nrows = append(rows, []string{%s})\nrows[i] = append(rows[i], itoa(i+b))\nrows[0] = append(rows[0], rows[i][0])\n}\nr := \"\"\nfor _, row := range rows {\nfor _, x := range row {\nif len(r) < 120 {\nr += x\n}\n}\n}\n%s = r\nreturn hStr(r) + i64(len(rows[0]))", str("b"), str("a")))
@@ -1135,7 +1159,7 @@ func (g *gen) emit() *Driver {
 		f := g.fams[k]
 		fmt.Fprintf(&b, "\t\t%s[i] = %s\n", f.name, f.zero)
 	}
-	b.WriteString("\t}\n}\n\n")
+	b.WriteString("\t}\n\tclearGlobals()\n}\n\n")
 	fmt.Fprintf(&b, "#wa:export step\nfunc step(op: i32, a0: i32, b0: i32, c0: i32) => i64 {\n\ta := int(a0) %% %d\n\tb := int(b0)\n\tc := int(c0)\n\t_ = a\n\t_ = b\n\t_ = c\n\tswitch op {\n", g.S)
 	for i := range g.cases {
 		fmt.Fprintf(&b, "\tcase %d:\n\t\treturn op%d(a, b, c)\n", i, i)
